@@ -333,7 +333,7 @@ prop('C14',
          dict(name='parallel', engine='E5', pkg='iters', test='TestC14Par', race=True, replay_test='TestReplayPar', env=dict(GORACE='halt_on_error=1'),
               quick=dict(cases=150, shards=2), thorough=dict(cases=4000, shards=8, timeout=3000)),
          dict(name='rapid', engine='E5', pkg='iters', test='TestC14',
-              quick=dict(cases=150000, shards=4), thorough=dict(cases=4500000, shards=16, timeout=2400)),
+              quick=dict(cases=300000, shards=6), thorough=dict(cases=4500000, shards=16, timeout=2400)),
          dict(name='fuzz', engine='coverage-guided sweep', kind='fuzz', pkg='iters', test='FuzzC14',
               thorough=dict(execs=3000000, timeout=2400)),
      ],
@@ -358,7 +358,7 @@ prop('C15',
          dict(name='parallel', engine='E5', pkg='iters', test='TestC15Par', race=True, replay_test='TestReplayPar', env=dict(GORACE='halt_on_error=1'),
               quick=dict(cases=150, shards=2), thorough=dict(cases=4000, shards=8, timeout=3000)),
          dict(name='rapid', engine='E5', pkg='iters', test='TestC15',
-              quick=dict(cases=150000, shards=4), thorough=dict(cases=4500000, shards=16, timeout=2400)),
+              quick=dict(cases=300000, shards=6), thorough=dict(cases=4500000, shards=16, timeout=2400)),
          dict(name='fuzz', engine='coverage-guided sweep', kind='fuzz', pkg='iters', test='FuzzC15',
               thorough=dict(execs=3000000, timeout=2400)),
      ],
